@@ -24,6 +24,10 @@ pub struct Case {
     pub cfg: SCfg,
     pub strat: Strat,
     pub matcher: XKind,
+    /// reader strategies only: read number `j` answers `ErrorKind::Interrupted` once. A search that then
+    /// still returns Ok claims to have run to completion, and owes everything the property says.
+    #[serde(default)]
+    pub interrupt_at: Option<usize>,
 }
 
 pub fn input_of(lines: &[Bs], final_term: bool, term: Term) -> Vec<u8> {
@@ -48,11 +52,19 @@ pub fn check_core(
     cfg: &SCfg,
     strat: &Strat,
     input: &[u8],
+    read_fault: Option<sea::ReadFault>,
 ) -> Result<Info, Fail> {
     let out = match matcher {
-        XAny::Regex(m) => sea::run_with(searcher, m, strat, input, None, None),
-        XAny::X(m) => sea::run_with(searcher, m, strat, input, None, None),
+        XAny::Regex(m) => sea::run_with(searcher, m, strat, input, None, read_fault),
+        XAny::X(m) => sea::run_with(searcher, m, strat, input, None, read_fault),
     };
+    if read_fault.is_some() && out.result.is_err() {
+        // the interruption surfaced as the search's error: not a completed search (what was delivered
+        // before it is C16's subject)
+        let mut info = Info::new(false);
+        info.class("interrupted_read_surfaced_as_error");
+        return Ok(info);
+    }
     let lines = model::split_lines(input, cfg.term.byte());
     let matches: Vec<bool> =
         lines.iter().map(|l| input[l.start..l.end].contains(&b'x')).collect();
@@ -138,6 +150,7 @@ pub fn check_core(
     } else if cfg.passthru {
         info.nontrivial = !succ_idx.is_empty() && succ_idx.len() < success.len();
     }
+    info.class_if(read_fault.is_some(), "interrupt_scheduled_and_search_completed");
     info.class_if(cfg.invert, "invert");
     info.class_if(cfg.warm.is_some(), "searcher_reused_after_another_input");
     info.class_if(
@@ -175,7 +188,11 @@ pub fn check(case: &Case) -> Verdict {
             XAny::X(m) => sea::run_with(&mut searcher, m, &case.strat, &w.0, None, None),
         };
     }
-    match check_core(&mut searcher, &matcher, &case.cfg, &case.strat, &input) {
+    let rf = match (&case.strat, case.interrupt_at) {
+        (Strat::Reader { .. }, Some(j)) => Some(sea::ReadFault::Interrupted(j)),
+        _ => None,
+    };
+    match check_core(&mut searcher, &matcher, &case.cfg, &case.strat, &input, rf) {
         Ok(info) => Verdict::Pass(info),
         Err(f) => Verdict::Fail(f),
     }
@@ -267,7 +284,7 @@ fn enumerate(pc: &PropCtx, sub: &'static str, alpha: &[&[u8]], max_n: usize, max
                         continue;
                     }
                     let input = input_of(&lines, final_term, job.cfg.term);
-                    match check_core(&mut searcher, &matcher, &job.cfg, &job.strat, &input) {
+                    match check_core(&mut searcher, &matcher, &job.cfg, &job.strat, &input, None) {
                         Ok(info) => {
                             evals += 1;
                             if info.nontrivial {
@@ -291,6 +308,7 @@ fn enumerate(pc: &PropCtx, sub: &'static str, alpha: &[&[u8]], max_n: usize, max
                                 cfg: job.cfg.clone(),
                                 strat: job.strat.clone(),
                                 matcher: job.matcher,
+                                interrupt_at: None,
                             };
                             if let Some(fl) = pc.triage(sub, &case, f) {
                                 let cl: Vec<(&str, u64)> = classes.iter().map(|(k, v)| (*k, *v)).collect();
@@ -391,12 +409,15 @@ pub fn gen_case(t: &mut Tape) -> Case {
             lines.insert(at, Bs(vec![]));
         }
     }
+    let strat = gen_strat(t);
+    let interrupt_at = if matches!(strat, Strat::Reader { .. }) && t.chance(1, 6) { Some(t.below(12)) } else { None };
     Case {
         lines,
         final_term: !t.chance(1, 3),
         cfg,
-        strat: gen_strat(t),
+        strat,
         matcher: *t.pick(&XKINDS),
+        interrupt_at,
     }
 }
 
